@@ -1,7 +1,7 @@
 import Verif.Proofs.Handlers
 /-  GENERATED ONCE by a script, then hand-maintained: one refinement theorem per Go handler. -/
 namespace Verif
-open Verif.Impl Verif.Spec Verif.Generated
+open Verif.Impl Verif.Spec
 set_option maxHeartbeats 400000
 
 theorem h_bbr0 (model : CpuModel) : Refines model .bbr0 := by bb_tac
